@@ -2263,6 +2263,10 @@ pub struct RxSim {
     pub keep_alive: bool,
     pub deadline: Option<i64>,
     pub txo: TxOracle,
+    /// `ingress-only on`: peer segments are ingested with poll_ingress_single (no socket egress)
+    pub ingress_only: bool,
+    /// `device-busy on`: the device hands out no transmit token (back-pressure)
+    pub device_busy: bool,
     last_poll_t: i64,
     idle_here: u32,
 }
@@ -2418,6 +2422,8 @@ impl RxSim {
             keep_alive: e.ka_ms != 0,
             deadline: None,
             txo: TxOracle::new(0),
+            ingress_only: false,
+            device_busy: false,
             last_poll_t: -1,
             idle_here: 0,
         }
@@ -2457,7 +2463,7 @@ impl RxSim {
         let now = self.now;
         let before = self.rxcap - self.sock_ref().recv_queue();
         let n0 = self.dev.n_rx;
-        self.dev.tx_budget = Some(POLL_TX_BUDGET);
+        self.dev.tx_budget = Some(if self.device_busy { 0 } else { POLL_TX_BUDGET });
         let st0 = self.sock_ref().state();
         let q0 = self.sock_ref().recv_queue();
         self.iface.poll(Instant::from_micros(now), &mut self.dev, &mut self.sockets);
@@ -2465,7 +2471,7 @@ impl RxSim {
             let d = format!("case {} t={}us: TIME-WAIT expired and the socket discarded {} received bytes the application had not read yet (recv can never return them or Finished)", self.id, now, q0);
             self.out.fail("c02-timewait-discards-unread", d);
         }
-        let livelock = self.dev.tx_budget == Some(0);
+        let livelock = self.dev.tx_budget == Some(0) && !self.device_busy;
         self.dev.tx_budget = None;
         let rx_n = self.dev.n_rx - n0;
         let mut frames = self.dev.drain_tx();
@@ -2622,7 +2628,24 @@ impl RxSim {
             self.tr(format!("peer tx {}", b));
         }
         self.dev.rx.push_back(pkt);
-        self.poll();
+        if self.ingress_only {
+            // the application drives ingress and egress separately (poll_ingress_single / poll_egress)
+            self.iface.poll_ingress_single(Instant::from_micros(self.now), &mut self.dev, &mut self.sockets);
+            let frames = self.dev.drain_tx();
+            for f in frames {
+                if let Some(s) = parse_tcp(Medium::Ip, &f) {
+                    if self.tracing {
+                        let b = seg_brief(&s, self.txo.iss, Some(self.irs));
+                        self.tr(format!("  socket tx (ingress reply) {}", b));
+                    }
+                    self.on_socket_segment(&s);
+                }
+            }
+            self.refresh();
+            self.deadline_invariant("after poll_ingress_single");
+        } else {
+            self.poll();
+        }
     }
 
     fn app_recv(&mut self, n: usize) {
@@ -2700,7 +2723,7 @@ impl RxSim {
                 let win: u16 = kv("win").map(|v| v.parse().unwrap()).unwrap_or(65535);
                 // SYN (listen role) or SYN-ACK (connect role; `bare=1`: a SYN without ACK, i.e. a
                 // simultaneous open)
-                let ack = if self.listen || kv("bare") == Some("1") { None } else { Some(0) };
+                let ack = if (self.listen || kv("bare") == Some("1")) && kv("ack") != Some("1") { None } else { Some(0) };
                 self.peer_send(0, 0, false, false, true, ack, win);
             }
             "seg" => {
@@ -2718,6 +2741,8 @@ impl RxSim {
                 let fin = fl.contains('F') && so + len == self.f_len;
                 self.peer_send(so, len, fin, fl.contains('P'), false, ao, win);
             }
+            "ingress-only" => self.ingress_only = t.get(1) == Some(&"on"),
+            "device-busy" => self.device_busy = t.get(1) == Some(&"on"),
             "recv" => self.app_recv(t[1].parse().unwrap()),
             "send" => self.app_send(t[1].parse().unwrap()),
             "close" => {
